@@ -2,6 +2,8 @@ import IsoVerif.Driver.Core
 import IsoVerif.Model.Interval
 import IsoVerif.Model.Profiles
 import IsoVerif.Model.FeatureCounts
+import IsoVerif.Model.C13Chromosome
+import IsoVerif.Driver.C05
 
 namespace IsoVerif.Driver.C13
 open Lean IsoVerif.Driver IsoVerif.Gen IsoVerif.Model IsoVerif.Model.C13
@@ -56,7 +58,54 @@ def optAll {α} : List (Option α) → Option (List α)
   | none :: _ => none
   | some a :: r => (optAll r).map (a :: ·)
 
+/-- the ids of `l` in first-occurrence order, each once -/
+def dedupNat : List Nat → List Nat → List Nat
+  | seen, [] => seen
+  | seen, x :: r => if seen.contains x then dedupNat seen r else dedupNat (seen ++ [x]) r
+
+def lookupTab {α} (t : List (Nat × List α)) (k : Nat) : List α :=
+  match t.lookup k with
+  | some l => l
+  | none => []
+
+/-- `chromosome`: one chromosome through the collector model (C05), the gene loading of every (sub-)region, the table-driven
+    per-alignment answers, the resolver (C08) and the counter -/
+def chromosomeOp (j : Json) : Except String Json := do
+  let all ← IsoVerif.Driver.C05.jAlns (← arg j "alns")
+  let mode ← IsoVerif.Driver.C05.jMode (← arg j "mode")
+  let repaired ← jBool (← arg j "repaired")
+  let genes ← jList (fun g => do
+      let a ← g.getArr?
+      if a.size = 3 then pure ({ gid := ← jNat a[0]!, span := (← jInt a[1]!, ← jInt a[2]!) } : C13Chr.GeneRec)
+      else throw "gene: 3 fields expected") (← arg j "genes")
+  let hits ← jList (jPair jNat (jList (jPair jNat jNat))) (← arg j "hits")
+  let marks ← jList (jPair jNat (jList (fun m => do
+      let a ← m.getArr?
+      if a.size = 4 then pure ((← jNat a[0]!), ((← jInt a[1]!), (← jInt a[2]!)), (← jInt a[3]!))
+      else throw "mark: 4 fields expected"))) (← arg j "marks")
+  let ans : C13Chr.Answers := { hits := lookupTab hits, marks := lookupTab marks }
+  let P := C13Chr.tableProc "chrF" ans
+  match IsoVerif.Model.Regions.collect mode all with
+  | none => pure (jErr "error")
+  | some out =>
+    let loads := out.map (fun ra =>
+      Json.mkObj [("region", ofIv ra.1), ("gene_region", ofIv (C13Chr.loadRegion repaired ra)),
+                  ("genes", ofNatList ((C13Chr.loadGenes genes (C13Chr.loadRegion repaired ra)).map (·.gid))),
+                  ("rids", ofNatList (ra.2.map (·.rid)))])
+    let its := C13Chr.chrItems repaired genes P out
+    let rids := dedupNat [] (its.map (·.brec.readId))
+    let kept := rids.map (fun rid => match C13Chr.keptEvents its rid with
+      | none => Json.arr #[ofNat rid, jErr "error"]
+      | some evs => Json.arr #[ofNat rid, ofNat evs.length])
+    let rows := match C13Chr.collectEvents its rids with
+      | none => jErr "error"
+      | some evs => match countAll coordKey FeatureInfo.merge true "NA" evs with
+        | none => jErr "error"
+        | some st => ofList (fun (r : CountRow) => Json.arr #[ofInt r.fi.start, ofInt r.fi.stop, ofNat r.incl, ofNat r.excl]) (dumpRows st)
+    pure (Json.mkObj [("loads", Json.arr loads.toArray), ("kept", Json.arr kept.toArray), ("rows", rows)])
+
 def ops : List (String × Handler) := [
+  ("chromosome", chromosomeOp),
   ("exon_profile", fun j => do
       pure (ofProfile (constructExonProfile (← jIvList (← arg j "known")) (← jIv (← arg j "gene_region")) (← jInt (← arg j "d"))
         (← jIvList (← arg j "blocks")) (← jInt (← arg j "polya")) (← jInt (← arg j "polyt"))))),
